@@ -268,7 +268,17 @@ impl Inner {
     }
     fn infix_filter(&self) -> InfixFilter {
         match self {
-            Inner::Initial(_o_r, _) => InfixFilter::None,
+            // (the listing must work also before the first write has initialized the state)
+            Inner::Initial(o_r, _) => o_r.as_ref().map_or(InfixFilter::None, |r| match r.naming {
+                Naming::Numbers | Naming::NumbersDirect => InfixFilter::Numbrs,
+                Naming::Timestamps | Naming::TimestampsDirect => {
+                    InfixFilter::Timstmps(InfixFormat::Std)
+                }
+                Naming::TimestampsCustomFormat {
+                    current_infix: _,
+                    format,
+                } => InfixFilter::Timstmps(InfixFormat::custom(format)),
+            }),
             Inner::Active(o_r, _, _) => o_r
                 .as_ref()
                 .map_or(InfixFilter::None, |rs| rs.naming_state.infix_filter()),
